@@ -3,9 +3,11 @@
    (property C05).  One trace = one (role, phase, class) edge replayed on a
    fresh pair of connections, or one random hostile session.  Lines:
      init  role phase lvl name ep sig  qs cp tls hc hcf   the edge, and the target's state right before the hostile input
-     call  role call raised hostile term cls              return of one of the five API calls on either endpoint, from the
-                                                          hostile call on (raised = "" or "Type@function"; term = next_event
-                                                          returned ConnectionTerminated)
+     calls role calls raised term hostile cls             the API calls the driver made in one go on one endpoint, from the
+                                                          hostile call on: receive_datagram or handle_timer, then next_event
+                                                          (once per event), datagrams_to_send, get_timer - parallel lists
+                                                          (raised[i] = "" or "Type@function"; term[i] = next_event returned
+                                                          ConnectionTerminated)
      end   closed sent events accepted moved term code_hi code_lo has_code
    The statement's clause comes first: no call raises.  The outcome table is
    model detail (clause model:...), the phase guard is harness machinery. *)
@@ -46,17 +48,19 @@ Outcome(st, e) == IF e.closed THEN "Close"
 
 StepS(st, e) ==
   CASE e.ev = "init" -> [S0 EXCEPT !.role = e.role, !.phase = e.phase, !.cls = IF KnownClass(e) THEN ClassOf(e) ELSE S0.cls]
-    [] e.ev = "call" -> [st EXCEPT !.rep[e.role] = @ \/ e.term]
+    [] e.ev = "calls" -> [st EXCEPT !.rep[e.role] = @ \/ \E i \in DOMAIN e.term : e.term[i]]
     [] OTHER -> st
 
 Cl(st, e) ==
   CASE e.ev = "init" ->
          << <<"harness-guard:known-class", KnownClass(e)>>,
             <<"harness-guard:phase-reached", e.lvl = "v" \/ (e.phase \in Phases(e.role) /\ PhaseOf(e.role, e) = e.phase)>> >>
-    [] e.ev = "call" ->
-         << <<"harness-guard:no-call-after-termination-reported", ~st.rep[e.role]>>,
+    [] e.ev = "calls" ->
+         << <<"harness-guard:no-call-after-termination-reported", ~st.rep[e.role] \/ e.unlogged>>,
+            <<"harness-guard:termination-ends-the-group", \A i \in DOMAIN e.term : e.term[i] => i = Len(e.term)>>,
             \* the property: the outcome of every call is one the model's action allows; Raised never is
-            <<"never-raises", CallAllowed(st.rep[e.role], e.call, IF e.raised = "" THEN "Normal" ELSE "Raised")>> >>
+            <<"never-raises", \A i \in DOMAIN e.calls :
+                                 CallAllowed(st.rep[e.role] /\ ~e.unlogged, e.calls[i], IF e.raised[i] = "" THEN "Normal" ELSE "Raised")>> >>
     [] e.ev = "end" ->
          IF st.cls.lvl = "v" THEN << >> ELSE
          LET al == Allowed(st.role, st.phase, st.cls) o == Outcome(st, e) IN
